@@ -11,7 +11,7 @@ for f in os.listdir(src):
     if os.path.isfile(p):
         shutil.copy(p, os.path.join(d, f))
 confirm = open(confirm_log).read() if confirm_log else ""
-result = [l for l in confirm.splitlines() if l.startswith("RESULT")]
+result = [l for l in confirm.splitlines() if l.startswith("RESULT build_exit")]
 meta = {
     "id": sid, "property": prop, "needs_to_manifest": needs,
     "author": "independent sub-agent given only the property text and a scratch worktree",
